@@ -167,6 +167,21 @@ theorem C03_array_index_end_to_end (d ps : Nat) (q : NBox) (rows : List Row) (hp
     RTreeArr.loop d q a a.len [0] ([], []) = query d q (buildTree ps rows) :=
   RTreeArr.loop_eq_query d q _ hps (RTreeFill.fillL_holds d ps rows hps)
 
+/-- **the queries as the array code answers them are exact**: `intersects` / `covers_overlaps` computed by the coded traversal over the
+`bounds_tree` of the coded bottom-up pass are the queries of the page-tree model - so `C03_intersects_exact` and
+`C03_covers_overlaps_exact` speak about them: each qualifying row exactly once, no other, for every arrangement of the rows (every `p`),
+every page size and dimension -/
+theorem C03_array_queries (d ps : Nat) (q : NBox) (rows : List Row) (hps : 1 ≤ ps) :
+    let a : RTreeArr.Arr := { D := clog2 (numPages rows.length ps), ps := ps,
+                              bt := fun i => (RTreeFill.fillL d ps rows).getD i none, rows := rows }
+    RTreeArr.intersectsArr d a q = intersects d (buildTree ps rows) q ∧
+    RTreeArr.coversOverlapsArr d a q = coversOverlaps d (buildTree ps rows) q := by
+  intro a
+  have h : RTreeArr.loop d q a a.len [0] ([], []) = query d q (buildTree ps rows) := C03_array_index_end_to_end d ps q rows hps
+  unfold RTreeArr.intersectsArr RTreeArr.coversOverlapsArr intersects coversOverlaps
+  rw [h]
+  exact ⟨rfl, rfl⟩
+
 /-! non-vacuity: the coded pass on three rows, page size 1 (depth 2, one absent page): root, two inner nodes, three leaves, a NaN row -/
 example : RTreeFill.boundsTreeCoded 2 1 [(0, [0,0,1,1]), (1, [2,2,3,3]), (2, [0,2,1,5])] =
     [some [0,0,3,5], some [0,0,3,3], some [0,2,1,5], some [0,0,1,1], some [2,2,3,3], some [0,2,1,5], none] := by decide
